@@ -7,6 +7,7 @@ from graphql import (
     EnumValueNode,
     FloatValueNode,
     GraphQLEnumType,
+    GraphQLInputField,
     GraphQLInputObjectType,
     GraphQLList,
     GraphQLNonNull,
@@ -18,6 +19,8 @@ from graphql import (
     NullValueNode,
     ObjectValueNode,
     StringValueNode,
+    Undefined,
+    ast_from_value,
 )
 
 from ..codegen import (
@@ -98,11 +101,17 @@ def parse_input_field_default_value(
     node: Optional[InputValueDefinitionNode],
     annotation: Annotation,
     field_type: str = "",
+    field: Optional[GraphQLInputField] = None,
 ) -> Optional[ast.expr]:
-    if node and node.default_value:
-        return parse_input_const_value_node(
-            node=node.default_value, field_type=field_type
+    default_value = node.default_value if node else None
+    if not node and field is not None and field.default_value is not Undefined:
+        # schema without SDL nodes (e.g. built from an introspection result)
+        default_value = cast(
+            Optional[ConstValueNode], ast_from_value(field.default_value, field.type)
         )
+
+    if default_value:
+        return parse_input_const_value_node(node=default_value, field_type=field_type)
 
     if (node and not isinstance(node.type, NonNullTypeNode)) or (
         isinstance(annotation, ast.Subscript)
